@@ -11,6 +11,7 @@ Definition pc_cur_ok (cu : opk) (p : pc) : Prop :=
   | PPre _ | PRe _ | PReuse => cu = OpObtain
   | PCLoad | PCBody | PCStore => cu = OpClean
   | PALoad1 | PAGet | PALoad2 | PAStore => cu = OpAri
+  | PQLd _ _ | PQCb | PQCa _ _ | PQSv _ | PQRb => cu = OpAcct
   | _ => True
   end.
 Definition prog_cur_ok (pr : prog) (cu : opk) (p : pc) : Prop :=
@@ -19,6 +20,7 @@ Definition prog_cur_ok (pr : prog) (cu : opk) (p : pc) : Prop :=
   | PRenew _ => cu = OpRenew /\ mpc p = false
   | PClean _ => cu = OpClean /\ mpc p = false
   | PAri _ => cu = OpAri /\ mpc p = false
+  | PAcct _ => cu = OpAcct /\ mpc p = false
   | PManage => cu = OpObtain \/ cu = OpRenew
   end.
 Definition nc_ok (th : thread) : Prop :=
